@@ -143,6 +143,38 @@ func (v *Verifier) scanBoxed(body ast.Node, info *types.Info) {
 		}
 		v.reslicedOnly[o] = only
 	}
+	// freshLocal: every value the variable ever holds is a fresh allocation made at that point
+	for o, rhss := range defs {
+		all := len(rhss) > 0
+		for _, r := range rhss {
+			if r == nil {
+				all = false
+				break
+			}
+			switch x := ast.Unparen(r).(type) {
+			case *ast.CallExpr:
+				id, ok := ast.Unparen(x.Fun).(*ast.Ident)
+				if !ok || (id.Name != "make" && id.Name != "new") {
+					all = false
+				} else if _, isB := info.ObjectOf(id).(*types.Builtin); !isB {
+					all = false
+				}
+			case *ast.CompositeLit:
+			case *ast.UnaryExpr:
+				if _, isLit := ast.Unparen(x.X).(*ast.CompositeLit); !(x.Op == token.AND && isLit) {
+					all = false
+				}
+			default:
+				all = false
+			}
+			if !all {
+				break
+			}
+		}
+		if all {
+			v.freshLocal[o] = true
+		}
+	}
 	// sliceRoot: o only ever holds sub-slices of one other slice variable (or of itself)
 	for o, rhss := range defs {
 		if _, isSl := o.Type().Underlying().(*types.Slice); !isSl {
@@ -235,7 +267,7 @@ func newVerifier(e *Engine, p *packages.Package, fc *FuncContract) *Verifier {
 		counter: map[string]int{}, trusted: map[string]bool{}, unspec: map[string]bool{}, inlined: map[string]bool{}, assumed: map[string]bool{},
 		windows: map[string]*winInfo{}, lits: map[int]litInfo{}, heapSorts: map[string]string{}, scanned: map[ast.Node]bool{},
 		reslicedOnly: map[*types.Var]bool{}, globalsWritten: map[string]bool{}, pendingHavoc: map[string]bool{}, specUsed: map[string]bool{},
-		lemmasUsed: map[string]bool{}, normDone: map[string]bool{}, pathCap: 2000, refRank: map[string]int{}, allocRank: map[string]int{}, axiomSet: map[*Term]bool{}, heapAxDone: map[string]bool{}, sliceRoot: map[*types.Var]*types.Var{}, heapAxOf: map[string]*Term{}, heapAxSet: map[*Term]bool{}}
+		lemmasUsed: map[string]bool{}, normDone: map[string]bool{}, pathCap: 2000, refRank: map[string]int{}, allocRank: map[string]int{}, axiomSet: map[*Term]bool{}, heapAxDone: map[string]bool{}, sliceRoot: map[*types.Var]*types.Var{}, freshLocal: map[*types.Var]bool{}, heapAxOf: map[string]*Term{}, heapAxSet: map[*Term]bool{}}
 	if fc != nil && fc.Mode != "" {
 		v.mode = fc.Mode
 	}
